@@ -217,4 +217,28 @@ theorem classify_incomplete {Doc : Type} (required : List String) (present : Doc
     exact absurd (by simpa using this) hn
   · rfl
 
+/-- an answer that is not provider metadata (and takes a non-negative time) -/
+def BadAnswer {Doc : Type} (required : List String) (present : Doc → List String) : Answer Doc → Prop
+  | .noAnswer dur => 0 ≤ dur
+  | .notMetadata dur => 0 ≤ dur
+  | .json doc dur => 0 ≤ dur ∧ complete required (present doc) = false
+
+theorem allFail_classified {Doc : Type} (required : List String) (present : Doc → List String) (bad : List (Answer Doc))
+    (h : ∀ a ∈ bad, BadAnswer required present a) : allFail (bad.map (classify required present)) := by
+  induction bad with
+  | nil => trivial
+  | cons a rest ih =>
+    have ha := h a List.mem_cons_self
+    have hr := ih (fun b hb => h b (List.mem_cons_of_mem _ hb))
+    cases a with
+    | noAnswer du => exact ⟨ha, hr⟩
+    | notMetadata du => exact ⟨ha, hr⟩
+    | json doc du =>
+      obtain ⟨h0, hc⟩ := ha
+      simp only [List.map_cons, classify, hc]
+      exact ⟨h0, hr⟩
+
+theorem totalDur_classified_length {Doc : Type} (required : List String) (present : Doc → List String) (bad : List (Answer Doc)) :
+    (bad.map (classify required present)).length = bad.length := by simp
+
 end Oidc.Discovery
